@@ -231,7 +231,7 @@ func genLargeSchemaVal(r *vlib.Rand) val {
 		ev.Data = r.Bytes(size)
 	case 1:
 		how = "many list elements"
-		for n := size / 24; n > 0; n-- {
+		for n := min(size/24, 3000); n > 0; n-- {
 			ev.Rl = append(ev.Rl, &c16pb.Leaf{Name: "leaf", N: int64(n), Note: proto.String("")})
 			ev.Ri = append(ev.Ri, int64(n))
 		}
@@ -243,7 +243,7 @@ func genLargeSchemaVal(r *vlib.Rand) val {
 		}
 		ev.Msi = map[int32]int64{}
 		ev.Mss = map[string]string{}
-		for n := size / 32; n > 0; n-- {
+		for n := min(size/32, 1500); n > 0; n-- {
 			ev.Msi[int32(n)] = 0
 			ev.Mss[fmt.Sprint("key-", n)] = ""
 		}
